@@ -181,3 +181,93 @@ contract(F, 'Env.cutoff', props=('C19',), params={'cls': 'cls', 'release_time': 
          ensures=[('level-held-then-released-to-0-or-to-minus-100-dB-for-an-exponential-curve;release-node-0', cutoff_post)],
          modifies=[], fields={'Env': {}}, class_modules={'Env': F}, hooks=HOOKS,
          policies={'Env._shape_number': cut_shape, 'sc3/base/builtins.py::dbamp': cut_dbamp}, native=False)
+
+
+# ---- Env.__init__: the time list is wrapped to the number of segments ------------------------------------------------------------
+# levels (or a non-empty default when none or empty) are kept as given; times - as a list, or a default when none/empty -
+# are wrapped (utl.wrap_extend: element i mod len, proved in base_utils) to exactly len(levels) - 1 segments; curves,
+# release node, loop node and offset are kept as given.
+NLEV = z3.Int('levels.len')
+
+
+def levels_kind(eng, name):
+    return V('seq', extra={'len': NLEV, 'facts': [NLEV >= 0], 'callers-levels': True,
+                           'get': (lambda e_, i, s_: V('any', z3.Function('level_at', z3.IntSort(), Any)(i)))})
+
+
+def in_as_list(eng, selfv, args, kwargs, st, node):
+    r = V('obj', oid='as-list', extra={'of': args[0]})
+    st.trace.append(('as_list', args[0], r))
+    return [(st, r)]
+
+
+def in_wrap_extend(eng, selfv, args, kwargs, st, node):
+    r = V('obj', oid='wrapped', extra={'of': args[0], 'n': args[1]})
+    st.trace.append(('wrap_extend', tuple(args), r))
+    return [(st, r)]
+
+
+def in_truth(eng, v, st, node):
+    if v.k == 'obj' and v.oid == 'times':
+        return z3.Bool('times_given_and_not_empty')
+    return None
+
+
+def in_getattr(eng, obj, name, st, node):
+    return None
+
+
+def init_post(c):
+    o = c.st.objs.get('self', {})
+    lv, tm = o.get('levels'), o.get('times')
+    if lv is None or tm is None or tm.k != 'obj' or tm.oid != 'wrapped':
+        return z3.BoolVal(False)
+    src, n = tm.extra['of'], tm.extra['n']
+    if not (src.k == 'obj' and src.oid == 'as-list') or n.k != 'int':
+        return z3.BoolVal(False)
+    given = z3.Bool('times_given_and_not_empty')
+    t0 = src.extra['of']
+    cl = []
+    # the levels: the caller's when there are any, else some non-empty default (which one is not C19's business)
+    if c.kinds.get('levels') != 'none' and lv is c._params['levels']:
+        cl += [NLEV > 0, n.z == NLEV - 1]
+    else:
+        k = len(lv.items) if lv.k == 'list' and lv.items is not None else 0
+        cl += [z3.BoolVal(k >= 1), n.z == k - 1]
+        if c.kinds.get('levels') != 'none':
+            cl.append(NLEV == 0)
+    # the times that are wrapped: the caller's when there are any
+    if c.kinds.get('times') != 'none' and t0 is c._params['times']:
+        cl.append(given)
+    elif c.kinds.get('times') != 'none':
+        cl.append(z3.Not(given))
+    kept = all(o.get(f) is c._params[p] for f, p in (('curves', 'curves'), ('release_node', 'release_node'),
+                                                     ('loop_node', 'loop_node'), ('offset', 'offset')))
+    cl.append(z3.BoolVal(bool(kept)))
+    return z3.And(*cl)
+
+
+def in_super(eng, name, args, kwargs, st, node):
+    if name == 'super':
+        def init(eng_, a, kw, st_, node_):
+            return [(st_, NONE)]
+        return [(st, V('obj', oid='super', extra={'init': V('func', py=('spec', init))}))]
+    return None
+
+
+def in_getattr(eng, obj, name, st, node):
+    if obj.k == 'obj' and obj.oid == 'super' and name == '__init__':
+        return [(st, obj.extra['init'])]
+    if obj.k == 'module' and name == 'UGenParameter':
+        return [(st, V('obj', oid='UGenParameter'))]
+    return None
+
+
+contract(F, 'Env.__init__', props=('C19',),
+         params={'self': 'self', 'levels': ['none', levels_kind], 'times': ['none', 'obj'], 'curves': 'obj', 'release_node': 'obj',
+                 'loop_node': 'obj', 'offset': 'obj'},
+         ensures=[('levels-kept-or-defaulted;times-wrapped-to-len(levels)-1;the-rest-kept', init_post)],
+         fields={'Env': {'levels': 'obj', 'times': 'obj', 'curves': 'obj', 'release_node': 'obj', 'loop_node': 'obj', 'offset': 'obj',
+                         '_Env__envgen_format': 'obj', '_Env__interpolation_format': 'obj'}},
+         class_modules={'Env': F}, hooks={'truth': in_truth, 'builtin_first': in_super, 'getattr': in_getattr},
+         policies={U + '::as_list': in_as_list, U + '::wrap_extend': in_wrap_extend}, native=False)
